@@ -108,6 +108,13 @@ def run(tier, rep):
     for ident, pn, pl, enc in cases:
         for kind, mp in mutations(rnd, pl, enc, pool):
             add(mp, ident=ident, kind="mut:" + kind)
+    # coverage-guided expansion: mutated inputs that reach lines of pyrtcm the corpus did not reach
+    from .. import covfuzz
+
+    found = covfuzz.expand_decode([(c[2], c[3].layout) for c in cases], budget_s=8 if quick else 90, tag="c04-cov")
+    rep.notes["coverage_guided"] = dict(covfuzz.expand_decode.stats)
+    for pl, lab in found:
+        add(pl, lab=lab, ident="covfuzz", kind="covfuzz")
     # static parser on arbitrary buffers
     for i in range(300 if quick else 3000):
         r = rnd.random()
